@@ -99,7 +99,7 @@ pub struct DM {
 
 pub struct SplitFam;
 
-const ALPHA: &[&str] = &["a", "b", ",", "é", "€", "😀", "aa", "ab", "a", ","];
+const ALPHA: &[&str] = &["a", "b", ",", "é", "€", "😀", "aa", "ab", "a", ",", "ᄀ", "à"];
 const DELIMS: &[&str] = &["", "a", "aa", "ab", "aab", ",", ",,", "é", "€a", "aba", "abab", "b", "😀", ",a,", "aaa"];
 const DELIM_CHARS: &[char] = &['a', ',', '€', 'é', '😀', 'b'];
 
